@@ -231,6 +231,20 @@ func evalSI(sc siCase) *Failure {
 	if fullDump(b) != bDump {
 		return siFail(sc.Fn+"/argument-modified", sc, fmt.Sprintf("b: %s -> %s", bDump, fullDump(b)))
 	}
+	// the functions document "a new SortedInts": writing to the result (as a later mutator would, in place, up
+	// to its capacity) must not reach the arguments; for mutators the receiver's new storage must not be b's
+	if !isBool && !isInt && got != nil {
+		full := got[:cap(got)]
+		for i := range full {
+			full[i] += 1000003
+		}
+		if !mutatesA && fullDump(a) != aDump {
+			return siFail(sc.Fn+"/result-aliases-argument", sc, fmt.Sprintf("writing to the result changed a: %s -> %s", aDump, fullDump(a)))
+		}
+		if sc.Fn != "UnionMethodSelf" && fullDump(b) != bDump {
+			return siFail(sc.Fn+"/result-aliases-argument", sc, fmt.Sprintf("writing to the result changed b: %s -> %s", bDump, fullDump(b)))
+		}
+	}
 	return nil
 }
 
